@@ -122,3 +122,44 @@ pub fn stream_summary(stream: &Stream, bytes: &[u8]) -> Value {
         .collect();
     json!({"bytes": bytes.len(), "packets": lay.packets.len(), "links": stream.links.len(), "first_packets": heads, "head_hex": hex(&bytes[..bytes.len().min(96)])})
 }
+
+/// Options that are documented not to change what is found in the data: verbosity, unstyled views with a check, an
+/// explicit `-e 0`, a custom-checks file whose keys are absent or agree with the data (RDH version when the stream has
+/// one version, packet count when nothing is filtered).  Returned with labels for the evidence histogram.
+pub fn neutral_extras(t: &mut Tape, w: &Worker, stream: &Stream, n_packets: usize) -> (Vec<String>, Vec<String>) {
+    let mut args: Vec<String> = vec![];
+    let mut labels: Vec<String> = vec![];
+    if t.chance(1, 4) {
+        let v = *t.pick(&["0", "2", "3"]);
+        args.extend(["-v".to_string(), v.to_string()]);
+        labels.push(format!("opt:-v{v}"));
+    }
+    if t.chance(1, 6) {
+        args.push("-d".into());
+        labels.push("opt:-d".into());
+    }
+    if t.chance(1, 8) {
+        args.extend(["-e".to_string(), "0".to_string()]);
+        labels.push("opt:-e0".into());
+    }
+    if t.chance(1, 4) {
+        let first = stream.links.iter().flat_map(|l| l.packets.iter()).next().map(|p| p.rdh.version);
+        let one_version = first.is_some() && stream.links.iter().all(|l| l.packets.iter().all(|p| Some(p.rdh.version) == first));
+        let mut lines = vec!["# keys that agree with the data (or are absent) change nothing".to_string()];
+        match t.below(4) {
+            0 => {}
+            1 if one_version => lines.push(format!("rdh_version = {}", first.unwrap())),
+            2 => lines.push(format!("cdps = {n_packets}")),
+            _ => {
+                if one_version {
+                    lines.push(format!("rdh_version = {}", first.unwrap()));
+                }
+                lines.push(format!("cdps = {n_packets}"));
+            }
+        }
+        let f = w.write("neutral_checks.toml", (lines.join("\n") + "\n").as_bytes());
+        args.extend(["--checks-toml".to_string(), f.display().to_string()]);
+        labels.push(format!("opt:checks-toml({} keys)", lines.len() - 1));
+    }
+    (args, labels)
+}
